@@ -10,6 +10,7 @@ import (
 	"io"
 	"log"
 	"net"
+	"slices"
 	"sort"
 	"strings"
 	"sync/atomic"
@@ -850,6 +851,84 @@ func hostile(r *ev.Run, srv *dohmem.Server) {
 			r.Violation("target-addresses-lost:mixed-case-target", fmt.Sprintf("a record 1 SVC.Mixed.Example ech=...: first dial target %q with an ECH list of %d octets (err %v); the target's address is 10.4.4.4, the origin's 10.3.3.3: %s", first, len(firstECH), err, resultKey(got)), "SVC.Mixed.Example")
 		}
 		r.Eval("mixed-case-target", oc)
+		srv.Zone = z.answer
+	}
+	// round 13: ONE RRset of n service-mode records with n DISTINCT resolvable targets (n = 1..24 and 100): every record comes
+	// back with its own target's address, in priority order - the number of targets is the zone's business, and a record whose
+	// target was not looked up silently drops out of the dial plan
+	for _, n := range []int{1, 2, 3, 4, 5, 6, 7, 8, 9, 10, 11, 12, 13, 14, 15, 16, 17, 18, 19, 20, 21, 22, 23, 24, 100} {
+		srv.Reset()
+		srv.Zone = func(name string, t uint16) dohmem.Answer {
+			var k int
+			switch {
+			case name == "many.example" && t == 65:
+				var rrs []dnsref.RR
+				for i := 1; i <= n; i++ {
+					rrs = append(rrs, dnsref.RR{Name: name, Type: 65, Class: 1, TTL: 60, Fields: dnsref.SVCB(uint16(i), fmt.Sprintf("t%d.many.example", i), []dnsref.Param{dnsref.ParamECH([]byte{0xec, byte(i)})})})
+				}
+				return dohmem.Answer{Records: rrs}
+			case t == 1 && name == "many.example":
+				return dohmem.Answer{Records: []dnsref.RR{{Name: name, Type: 1, Class: 1, TTL: 60, Fields: []dnsref.Field{{Raw: []byte{10, 9, 0, 0}}}}}}
+			case t == 1:
+				if c, _ := fmt.Sscanf(name, "t%d.many.example", &k); c == 1 && k >= 1 && k <= n {
+					return dohmem.Answer{Records: []dnsref.RR{{Name: name, Type: 1, Class: 1, TTL: 60, Fields: []dnsref.Field{{Raw: []byte{10, 9, 1, byte(k)}}}}}}
+				}
+			}
+			return dohmem.Answer{}
+		}
+		res, _ := ech.NewResolver("https://doh.test/dns-query")
+		got, err := res.Resolve(context.Background(), "many.example")
+		var plan, want []string
+		if err == nil {
+			for t := range got.Targets("tcp") {
+				plan = append(plan, fmt.Sprintf("%s/%x", t.Address, t.ECH))
+			}
+		}
+		for i := 1; i <= n; i++ {
+			want = append(want, fmt.Sprintf("10.9.1.%d:443/ec%02x", i, i))
+		}
+		oc := "every target's address goes with its record"
+		if err != nil || !slices.Equal(plan, want) {
+			oc = "targets without their addresses"
+			r.Violation(fmt.Sprintf("target-addresses-lost:%d-distinct-targets", n), fmt.Sprintf("an RRset of %d service-mode records with %d distinct targets, each of which has an address: the dial plan has %d entries (err %v)\n got  %v\n want %v", n, n, len(plan), err, plan, want), n)
+		}
+		r.Eval(fmt.Sprintf("distinct-targets:%d", n), oc)
+		srv.Zone = z.answer
+	}
+	// round 13: an extended rcode is what the OPT record says WHEREVER that record stands in the additional section (RFC 6891
+	// gives it no place): the outcome of Resolve for an HTTPS answer with rcode 16..23, 3+16k is the same with the OPT record
+	// last, followed by one unrelated additional record, or between two
+	for _, rc := range []int{16, 17, 18, 19, 20, 22, 23, 35, 3 + 16*255, 2 + 16, 4095} {
+		var ref string
+		for vi, after := range [][]dnsref.RR{nil,
+			{{Name: "filler.example", Type: 1, Class: 1, TTL: 60, Fields: []dnsref.Field{{Raw: []byte{10, 7, 7, 7}}}}},
+			{{Name: "filler.example", Type: 16, Class: 1, TTL: 60, Fields: []dnsref.Field{{Raw: []byte{1, 'x'}}}}, {Name: "xr.example", Type: 1, Class: 1, TTL: 60, Fields: []dnsref.Field{{Raw: []byte{10, 7, 7, 8}}}}}} {
+			srv.Reset()
+			srv.Zone = func(name string, t uint16) dohmem.Answer {
+				switch {
+				case name == "xr.example" && t == 65:
+					a := dohmem.Answer{RCode: rc, AfterOPT: after}
+					if vi == 2 {
+						a.Additional = []dnsref.RR{{Name: "front.example", Type: 1, Class: 1, TTL: 60, Fields: []dnsref.Field{{Raw: []byte{10, 7, 7, 9}}}}}
+					}
+					return a
+				case name == "xr.example" && t == 1:
+					return dohmem.Answer{Records: []dnsref.RR{{Name: name, Type: 1, Class: 1, TTL: 60, Fields: []dnsref.Field{{Raw: []byte{10, 7, 0, 1}}}}}}
+				}
+				return dohmem.Answer{}
+			}
+			res, _ := ech.NewResolver("https://doh.test/dns-query")
+			got, err := res.Resolve(context.Background(), "xr.example")
+			sig := fmt.Sprintf("err=%v nx=%v %s", err != nil, errors.Is(err, ech.ErrNonExistentDomain), resultKey(got))
+			oc := "extended rcode read wherever the OPT record stands"
+			if vi == 0 {
+				ref = sig
+			} else if sig != ref {
+				oc = "extended rcode depends on the OPT record's place"
+				r.Violation(fmt.Sprintf("extended-rcode-depends-on-opt-position:%d", rc), fmt.Sprintf("HTTPS answer with extended rcode %d: with the OPT record last %s; with %d additional record(s) behind it %s", rc, ref, len(after), sig), rc)
+			}
+			r.Eval(fmt.Sprintf("opt-position:%d:%d", rc, vi), oc)
+		}
 		srv.Zone = z.answer
 	}
 	// a response that answers ANOTHER question than the one asked (its question section names other.example, its records are
